@@ -166,6 +166,24 @@ theorem key_of_remedy (r : Remedy) (hs : List (String × String)) (key : Key) (w
     | (exact absurd h (by simp))
     | skip
 
+/-- … and, for a remedy with an allocation table, the lower-cased header name and the request's value of
+    that header (the code hashes the value; the hash is modelled as injective).  Together with `projection`:
+    counters of different remedies and different groups never influence each other. -/
+theorem key_of_group (r : Remedy) (hs : List (String × String)) (key : Key) (wd : WindowData)
+    (a : Alloc) (hn : String) (h : resolve r hs = .limited key wd)
+    (ha : r.alloc = some a) (hg : a.groupBy = some hn) :
+    key.group = some (hn.toLower, lookupHdr hs hn) := by
+  unfold resolve at h
+  rw [ha] at h
+  dsimp only at h
+  rw [hg] at h
+  dsimp only at h
+  repeat' split at h
+  all_goals first
+    | (injection h with h1 h2; rw [← h1])
+    | (exact absurd h (by simp))
+    | skip
+
 /-- Every answer of `OnRequest` is the one the configuration dictates: default behaviour `allow`/undefined ⇒
     NoOp, `block` ⇒ early response, and every rejection (default or by the limiter) carries the configured
     status (429 when none is configured). -/
